@@ -4,10 +4,10 @@ never /repo itself) and writes seeded/RESULTS.json + a table on stdout.
 usage: tools/mutant_matrix.py [--all] [ids...]"""
 import json, os, subprocess, sys, tempfile, time
 ROOT = os.path.dirname(os.path.dirname(os.path.abspath(__file__)))
-REL = {"C01": ["C13", "C15"], "C02": ["C05", "C12", "C07"], "C03": ["C04", "C06", "C17"],
-       "C04": ["C03", "C05", "C08"], "C05": ["C04", "C14", "C12"], "C06": ["C03", "C05"], "C07": ["C16"],
+REL = {"C01": ["C13", "C15", "C04"], "C02": ["C05", "C12", "C07"], "C03": ["C04", "C06", "C17"],
+       "C04": ["C03", "C05", "C08", "C06"], "C05": ["C04", "C14", "C12"], "C06": ["C03", "C05"], "C07": ["C16", "C03"],
        "C08": ["C15", "C12"], "C09": ["C18", "C15"], "C10": ["C11", "C16", "C13"], "C11": ["C10", "C07", "C13"],
-       "C12": ["C02", "C17"], "C13": ["C15", "C17"], "C14": ["C12", "C03"], "C15": ["C08", "C13"],
+       "C12": ["C02", "C17"], "C13": ["C15", "C17"], "C14": ["C12", "C03", "C06"], "C15": ["C08", "C13"],
        "C16": ["C07", "C12", "C10", "C13"], "C17": ["C16"], "C18": ["C17"]}
 ALL = sorted(REL)
 args = sys.argv[1:]
